@@ -224,10 +224,6 @@ Proof.
   destruct (x + (0 + 1) <? 1) eqn:E; [lia|]. f_equal. lia.
 Qed.
 
-(* what an array is known to be: valid, its shape, its values at the non-negative indices *)
-Definition is_arr {A : Type} (a : arr A) (nr nc : Z) (f : Z -> Z -> A) : Prop :=
-  a_ok a = true /\ a_nr a = nr /\ a_nc a = nc /\ forall r c, 0 <= r -> 0 <= c -> a_at a r c = f r c.
-
 Lemma is_np_of : forall {A : Type} ny nx (I : Z -> Z -> A), 0 <= ny -> 0 <= nx -> is_arr (np_of ny nx I) ny nx I.
 Proof. intros. unfold is_arr, np_of. cbn [a_ok a_nr a_nc a_at]. split; [lia|]. repeat split. Qed.
 
@@ -454,10 +450,6 @@ Section MasksGen.
   Variables (ny nx w s vp nd : Z).
   Hypotheses (Hny : 0 <= ny) (Hnx : 1 <= nx) (Hw : 0 < w) (Hodd : Z.odd w = true).
 
-  (* an image dataset of ny x nx pixels with the optional mask m *)
-  Definition ds_of (im : img) (m : option img) : dataset :=
-    MkDs (np_of ny nx im) (match m with Some x => Some (np_of ny nx x) | None => None end) vp nd.
-
   Lemma is_mask : forall (m : img),
     is_arr (np_set_where (np_binary_dilation (np_eq_scalar (np_of ny nx m) nd) w w 1) true
              (np_set_where (np_and (np_ne_scalar (np_of ny nx m) vp) (np_ne_scalar (np_of ny nx m) nd)) true
@@ -488,7 +480,7 @@ Section MasksGen.
   (* the masks that cv_masked receives are the model's: left and right dilated masks with the window of the measure,
      and, exactly when subpix != 1, the two-column mask of the right one *)
   Lemma gen_cv_masked_masks_eq : forall (IL IR : img) (mL mR : option img),
-    let res := GF.cv_masked_masks (ds_of IL mL) (ds_of IR mR) w s in
+    let res := GF.cv_masked_masks (ds_of ny nx vp nd IL mL) (ds_of ny nx vp nd IR mR) w s in
     is_arr (fst res) ny nx (mask_nan ny nx w vp nd mL)
     /\ is_arr (fst (snd res)) ny nx (mask_nan ny nx w vp nd mR)
     /\ match snd (snd res) with
@@ -499,7 +491,7 @@ Section MasksGen.
     intros IL IR mL mR. cbv zeta. unfold GF.cv_masked_masks, GF.masks_dilatation. cbv zeta.
     unfold ds_of. cbn [d_im d_msk d_valid_pixels d_no_data_mask fst snd].
     split; [destruct mL as [m|]; [exact (is_mask m)|exact is_no_mask]|].
-    assert (HR : is_arr (fst (snd (GF.cv_masked_masks (ds_of IL mL) (ds_of IR mR) w s))) ny nx (mask_nan ny nx w vp nd mR)).
+    assert (HR : is_arr (fst (snd (GF.cv_masked_masks (ds_of ny nx vp nd IL mL) (ds_of ny nx vp nd IR mR) w s))) ny nx (mask_nan ny nx w vp nd mR)).
     { unfold GF.cv_masked_masks, GF.masks_dilatation. cbv zeta. unfold ds_of.
       cbn [d_im d_msk d_valid_pixels d_no_data_mask fst snd].
       destruct mR as [m|]; [exact (is_mask m)|exact is_no_mask]. }
@@ -511,3 +503,76 @@ Section MasksGen.
     - split; [lia|]. apply is_shift. exact HR.
   Qed.
 End MasksGen.
+
+(* ------------------------------------------------------------------ the headline facts on the generated definitions *)
+
+Lemma census_transform_bound : forall w I r c, 0 < w -> w * w <= 32 -> 0 <= census_transform w I r c < 2 ^ 32.
+Proof.
+  intros w I r c Hw Hww. rewrite census_transform_bits by exact Hw.
+  pose proof (bvl_bound (cbits w I r c)) as B. split; [lia|].
+  apply Z.lt_le_trans with (1 := proj2 B). apply Z.pow_le_mono_r; [lia|].
+  unfold cbits. rewrite rev_length, map_length, range_length.
+  rewrite <- Z2Nat.inj_mul by lia. rewrite Z2Nat.id by nia. exact Hww.
+Qed.
+
+Lemma lxor_bound32 : forall a b, 0 <= a < 2 ^ 32 -> 0 <= b < 2 ^ 32 -> 0 <= Z.lxor a b < 2 ^ 32.
+Proof.
+  intros a b Ha Hb.
+  assert (N : 0 <= Z.lxor a b) by (apply Z.lxor_nonneg; lia).
+  split; [exact N|].
+  destruct (Z.eq_dec (Z.lxor a b) 0) as [E|E]; [rewrite E; reflexivity|].
+  apply Z.log2_lt_pow2; [lia|].
+  assert (La : Z.log2 a < 32).
+  { destruct (Z.eq_dec a 0) as [->|]; [reflexivity|]. apply Z.log2_lt_pow2; lia. }
+  assert (Lb : Z.log2 b < 32).
+  { destruct (Z.eq_dec b 0) as [->|]; [reflexivity|]. apply Z.log2_lt_pow2; lia. }
+  pose proof (Z.log2_lxor a b ltac:(lia) ltac:(lia)). lia.
+Qed.
+
+(* C02_census_hamming on the generated census_transform / census_cost / popcount32b: the cost cell of two transformed
+   pixels counts the window pixels whose "greater than the centre" bits differ *)
+Lemma gen_census_hamming : forall w ny nx I ny2 nx2 J r c r2 c2,
+  Z.odd w = true -> 3 <= w -> w * w <= 32 -> w <= ny -> w <= nx -> w <= ny2 -> w <= nx2 ->
+  GF.census_cost_cell (a_at (GF.census_transform (np_of ny nx I) w) r c)
+                      (a_at (GF.census_transform (np_of ny2 nx2 J) w) r2 c2)
+  = zsum (map (fun a => zsum (map (fun b =>
+       Z.b2z (xorb (I (r + a) (c + b) >? I (r + offset w) (c + offset w))
+                   (J (r2 + a) (c2 + b) >? J (r2 + offset w) (c2 + offset w)))) (zrange 0 w))) (zrange 0 w)).
+Proof.
+  intros w ny nx I ny2 nx2 J r c r2 c2 Hodd Hw3 Hww Hny Hnx Hny2 Hnx2.
+  destruct (gen_census_transform_eq w ny nx I Hodd Hw3 Hww Hny Hnx) as (_ & _ & _ & E1).
+  destruct (gen_census_transform_eq w ny2 nx2 J Hodd Hw3 Hww Hny2 Hnx2) as (_ & _ & _ & E2).
+  rewrite E1, E2. unfold GF.census_cost_cell.
+  pose proof (census_transform_bound w I r c ltac:(lia) Hww) as B1.
+  pose proof (census_transform_bound w J r2 c2 ltac:(lia) Hww) as B2.
+  change (2 ^ 32) with 4294967296 in B1, B2. rewrite !u32_id by lia.
+  rewrite gen_popcount32b_eq by (apply lxor_bound32; assumption).
+  apply census_hamming; lia.
+Qed.
+
+(* C02_mean_raster_eq_window_mean on the generated compute_mean_raster / compute_std_raster *)
+Lemma gen_mean_raster_eq_window_mean : forall w ny nx I r c, 0 < w -> w <= ny -> w <= nx -> 0 <= r -> 0 <= c ->
+  let m := GF.compute_mean_raster (np_of ny nx I) w in
+  let v := GF.compute_std_raster_var (np_of ny nx I) w in
+  let S1 := zsum (map (fun a => zsum (map (fun b => I (r + a) (c + b)) (zrange 0 w))) (zrange 0 w)) in
+  let S2 := zsum (map (fun a => zsum (map (fun b => I (r + a) (c + b) * I (r + a) (c + b)) (zrange 0 w))) (zrange 0 w)) in
+  a_ok m = true /\ a_nr m = ny - (w - 1) /\ a_nc m = nx - (w - 1)
+  /\ a_ok v = true /\ a_nr v = ny - (w - 1) /\ a_nc v = nx - (w - 1)
+  /\ (a_at m r c == inject_Z S1 / inject_Z (w * w))%Q
+  /\ 0 <= w * w * S2 - S1 * S1
+  /\ (w * w * S2 < 10 ^ 15 -> (a_at v r c == inject_Z (w * w * S2 - S1 * S1) / inject_Z (w * w * (w * w)))%Q).
+Proof.
+  intros w ny nx I r c Hw Hny Hnx Hr Hc. cbv zeta.
+  pose proof (is_np_of ny nx I ltac:(lia) ltac:(lia)) as HA.
+  destruct (gen_mean_raster_is w ny nx Hw Hny Hnx _ _ HA) as (Mok & Mr & Mc & Mat).
+  destruct (gen_std_raster_var_is w ny nx Hw Hny Hnx _ _ HA) as (Vok & Vr & Vc & Vat).
+  destruct (Vat r c Hr Hc) as (_ & Vb).
+  pose proof (sum_raster_eq w ny nx I r c ltac:(lia) Hr Hc) as E1.
+  pose proof (sum_raster_eq w ny nx (fun rr cc => I rr cc * I rr cc) r c ltac:(lia) Hr Hc) as E2.
+  pose proof (var_raster_eq w ny nx I r c ltac:(lia) Hr Hc) as E3.
+  unfold wsum in E1, E2, E3.
+  repeat (split; [assumption|]).
+  split; [rewrite (Mat r c Hr Hc), E1; reflexivity|].
+  split; [exact (wsum_variance_nonneg w I r c Hw)|].
+  intros Hb. rewrite E2 in Vb. rewrite (Vb Hb), E3. reflexivity.
+Qed.
